@@ -126,14 +126,19 @@ Theorem C03_foreign_signers_dont_count : forall O a now auths sigs extra cs,
 Proof. exact foreign_signers_dont_count. Qed.
 Print Assumptions C03_foreign_signers_dont_count.
 
-(* Completeness. If no can_enforce hook traps, all supplied signatures verify and every context
+(* Completeness. If none of the can_enforce hooks the check can consult traps (those of the stored,
+   applicable, unexpired rules, asked about the contexts of the batch with the rule's own supplied
+   signers - a trapping hook aborts the whole invocation, see C03_trapping_hook_never_succeeds),
+   all supplied signatures verify and every context
    has SOME stored, applicable, unexpired rule whose requirement is met, then every context has a
    deciding rule, and the check succeeds if the enforce hooks of the deciding rules accept one after
    the other ([accepted_seq]: each enforce call sees the effects of the calls before it in the same
    check - hooks are stateful) - and fails only if one of those hooks refuses. *)
 Theorem C03_complete : forall cfg calls O now auths sigs cs,
   let a := s_acct (run cfg init calls) in
-  (forall p c au r, o_can O p c au r <> None) ->
+  (forall c r p, In c cs -> In r (a_rules a) -> (r_type r = ctx_type c \/ r_type r = TDefault) ->
+     match r_valid r with Some u => now <= u | None => True end -> In p (r_policies r) ->
+     o_can O p c (filter (fun s => mem_s s (map fst sigs)) (r_signers r)) r <> None) ->
   (forall x, In x sigs ->
      match x with
      | (Delegated d, _) => has_auth auths d = true
@@ -229,10 +234,37 @@ Theorem C03_threshold_rule_is_m_of_n : forall c calls now auths sigs cs log,
 Proof. exact threshold_m_of_n. Qed.
 Print Assumptions C03_threshold_rule_is_m_of_n.
 
+(* What the monitor expects is what the model does, for any well-formed table and any answers of
+   the mocks: refusal when the property demands it, refusal when a consulted can_enforce hook traps
+   (never a success), success with exactly the expected enforce calls otherwise. *)
+Theorem C03_monitor_expectation_correct : forall a M now auths sigs cs,
+  wf a ->
+  match expectation (a_rules a) M now auths sigs cs with
+  | XFail => do_check_auth (oracles_of M) a now auths sigs cs = Fail
+  | XSilent => do_check_auth (oracles_of M) a now auths sigs cs = Fail
+  | XOk enf => exists l, do_check_auth (oracles_of M) a now auths sigs cs = Ok l /\ filter is_enforce l = enf
+  end.
+Proof. exact expectation_correct. Qed.
+Print Assumptions C03_monitor_expectation_correct.
+
+(* Self-administration is not refused spuriously: in every reachable state, when the
+   preconditions of an entry point hold ([op_ok]: limits, duplicates, fingerprints, policy
+   installation, from the stored table) the entry point itself succeeds - so with C03_complete a
+   properly authorised, valid edit of the table goes through. *)
+Theorem C03_entry_point_succeeds : forall M c a now op maxid,
+  wf a -> wf2 c a -> maxid + 1 = a_next a ->
+  op_ok c (a_rules a) M now maxid op = true ->
+  exists res, run_op (oracles_of M) c a now op = Ok res.
+Proof. exact op_ok_model. Qed.
+Print Assumptions C03_entry_point_succeeds.
+
 (* The executable monitor of Run/C03.v (the property as a boolean over the implementation's
    observations) accepts every run of the model, for every call sequence, and the model agrees
    with itself; it is what is evaluated on the real contract's traces. *)
 Theorem C03_monitor_accepts_model : forall (c : cfg) (types : list ctype) (calls : list call),
+  (* the observation lists the ids of at least one type, and of every type a rule is created with
+     (a boolean on the inputs; the harness observes all 8 types it ever uses) *)
+  covers types calls = true ->
   check (observe_model c types calls) = (0%N, 0%N, 0%N).
 Proof. exact check_accepts_model. Qed.
 Print Assumptions C03_monitor_accepts_model.
@@ -437,11 +469,72 @@ Proof. vm_compute. reflexivity. Qed.
 (* the monitor rejects a success of the over-limit batch, and a batch enforced only once *)
 Example C03_monitor_rejects_over_limit_batch :
   snd (fst (check (cfg15, set_last_outcome (Ok (None, []))
-     (snd (observe_model cfg15 types_ex (hist_spend ++ [CheckAuth xsig [] [CTransfer 2 60; CTransfer 2 60]])))))) = 7%N.
+     (snd (observe_model cfg15 [TDefault; TCall 1; TCall 2] (hist_spend ++ [CheckAuth xsig [] [CTransfer 2 60; CTransfer 2 60]])))))) = 7%N.
 Proof. vm_compute. reflexivity. Qed.
 Example C03_monitor_rejects_enforce_once_per_rule :
   snd (fst (check (cfg15, set_last_outcome
      (Ok (None, [EVerify 0 0 SGood; EEnforce real_spend (CTransfer 2 30) [X0] (mkRule 3 (TCall 2) 3%N None [X0] [real_spend])]))
-     (snd (observe_model cfg15 types_ex (hist_spend ++ [CheckAuth xsig [] [CTransfer 2 30; CTransfer 2 30]])))))) = 7%N.
+     (snd (observe_model cfg15 [TDefault; TCall 1; TCall 2] (hist_spend ++ [CheckAuth xsig [] [CTransfer 2 30; CTransfer 2 30]])))))) = 7%N.
 Proof. vm_compute. reflexivity. Qed.
 
+(* ---- review 2.1: a trapping can_enforce hook never ends in a success ---- *)
+Definition hist_trap : list call := hist ++ [SetMode 2%N 2 (mkMode true true PTrap PTrue)].
+Definition forgedT (last : call) (o : outcome) : trace :=
+  (cfg15, set_last_outcome o (snd (observe_model cfg15 types_ex (hist_trap ++ [last])))).
+Example C03_ex_trap_model_fails :
+  snd (step cfg15 (run cfg15 init hist_trap) (CheckAuth [] [] [CCall 1 0])) = Fail.
+Proof. vm_compute. reflexivity. Qed.
+(* nobody signs, the newest rule's hook traps, the check "succeeds": rejected *)
+Example C03_monitor_rejects_success_under_trap :
+  check (forgedT (CheckAuth [] [] [CCall 1 0]) (Ok (None, []))) = (7%N, 7%N, 0%N) /\
+  check (forgedT (CheckAuth [] [] [CCall 1 0]) (Ok (None, [EEnforce 5%N (CCall 3 3) [A0] r1]))) = (7%N, 7%N, 0%N).
+Proof. vm_compute. split; reflexivity. Qed.
+(* remove_context_rule(0) with an EMPTY signature map "succeeds" while the deciding hook traps: rejected *)
+Definition hist_trap2 : list call :=
+  hist ++ [Admin admin_sig [0%N] (AddRule (TCall 0) 3%N None [X0] [(3%N, 1%N)]); SetMode 3%N 3 (mkMode true true PTrap PTrue)].
+Example C03_monitor_rejects_admin_under_trap :
+  snd (fst (check (cfg15, set_last_obs (fun ob => mkObs (ob_now ob) 3 (filter (fun r => negb (r_id r =? 0)) (ob_rules ob))
+                                                      [(TDefault, Some []); (TCall 0, Some [3]); (TCall 1, Some [1;2])])
+      (set_last_outcome (Ok (None, [])) (snd (observe_model cfg15 [TDefault; TCall 0; TCall 1] (hist_trap2 ++ [Admin [] [] (RemoveRule 0)]))))))) = 8%N.
+Proof. vm_compute. reflexivity. Qed.
+(* a direct set_threshold with no signer at all "succeeds" while the only candidate's hook cannot be re-entered: rejected *)
+Definition hist_busy : list call :=
+  [Advance 10; Construct [A0] []; Admin admin_sig [0%N] (AddRule (TCall 4) 1%N None [X0; X1] [(real_thr, 2%N)])].
+Example C03_monitor_rejects_set_threshold_under_trap :
+  snd (fst (check (cfg15, set_last_outcome (Ok (None, []))
+     (snd (observe_model cfg15 [TDefault; TCall 4] (hist_busy ++ [SetThreshold false [] [] 1 1 2])))))) = 4%N.
+Proof. vm_compute. reflexivity. Qed.
+(* ---- review 2.2: before construction nothing can be authorised, and there is nothing to show ---- *)
+Example C03_monitor_rejects_before_construction :
+  snd (fst (check (cfg15, [(CheckAuth [] [] [CCall 1 0], Ok (None, []), mkObs 0 0 [] [(TDefault, Some [])])]))) = 1%N /\
+  snd (fst (check (cfg15, [(Advance 5, Ok (None, []), mkObs 5 1 [mkRule 0 TDefault 0%N None [A0] []] [(TDefault, Some [0])])]))) = 1%N /\
+  snd (fst (check (cfg15, [(Advance 5, Ok (None, []), mkObs 7 0 [] [(TDefault, Some [])])]))) = 1%N /\
+  snd (fst (check (cfg15, [(Advance 5, Ok (None, []), mkObs 5 0 [] [])]))) = 1%N.
+Proof. vm_compute. repeat split. Qed.
+(* ---- review 2.3: a spurious refusal of a fully authorised, valid self-administration call is rejected ---- *)
+Example C03_monitor_rejects_spurious_admin_refusal :
+  snd (fst (check (forged (Admin admin_sig [0%N] (AddSigner 0 X0)) Fail))) = 6%N /\
+  snd (fst (check (forged (Admin admin_sig [0%N] (UpdName 1 3%N)) Fail))) = 6%N /\
+  snd (fst (check (forged (Admin admin_sig [0%N] (AddRule (TCall 2) 1%N None [A1] [])) Fail))) = 6%N /\
+  (* ... while a refusal with a reason stays accepted: duplicate signer, unknown rule, duplicate fingerprint *)
+  check (observe_model cfg15 types_ex (hist ++ [Admin admin_sig [0%N] (AddSigner 0 A0)])) = (0%N, 0%N, 0%N) /\
+  check (observe_model cfg15 types_ex (hist ++ [Admin admin_sig [0%N] (UpdName 9 3%N)])) = (0%N, 0%N, 0%N) /\
+  check (observe_model cfg15 types_ex (hist ++ [Admin admin_sig [0%N] (AddRule (TCall 1) 1%N None [X0; A1] [])])) = (0%N, 0%N, 0%N).
+Proof. vm_compute. repeat split. Qed.
+(* a rule whose type the observation does not list ids for: rejected (shape of the observation) *)
+Example C03_monitor_rejects_unlisted_type :
+  snd (fst (check (observe_model cfg15 [TDefault] hist))) = 3%N.
+Proof. vm_compute. reflexivity. Qed.
+(* ---- review 3: C03_foreign_signers_dont_count with a non-empty set of foreign signers ---- *)
+Example C03_ex_foreign_signers :
+  let extra := [(Delegated 5, SGood); (External 1 3, SGood)] in
+  (forall r x, In r (a_rules (s_acct st_ex)) -> In x extra -> ~ In (fst x) (r_signers r)) /\
+  do_check_auth O_ex (s_acct st_ex) 10 [1%N; 5%N] ([(A1, SGood); (X0, SGood)] ++ extra) [CCall 1 0]
+  = Ok [EVerify 0 0 SGood; EVerify 1 3 SGood;
+        ECan 2%N (CCall 1 0) [X0] (mkRule 2 (TCall 1) 2%N None [X0] [2%N]);
+        EEnforce 2%N (CCall 1 0) [X0] (mkRule 2 (TCall 1) 2%N None [X0] [2%N])].
+Proof.
+  split; [|vm_compute; reflexivity].
+  intros r x Hr Hx Hi. vm_compute in Hr.
+  destruct Hr as [<-|[<-|[<-|[]]]]; destruct Hx as [<-|[<-|[]]]; cbn in Hi; intuition discriminate.
+Qed.
